@@ -182,7 +182,7 @@ func runRegCoupd(c *core.Ctx) {
 			continue
 		}
 		ev, g := kind5Guard(add, call.Block())
-		if !g || ev != "p:"+add.Params[1].Name() {
+		if !g || ev != evParamOf(add) {
 			continue
 		}
 		writesReg := false
@@ -247,25 +247,30 @@ func runKeyDom(c *core.Ctx) {
 	}
 	add := a.add
 	c.CountFuncs(2)
-	evParam := "p:" + add.Params[1].Name()
-	// (1) suppression probes of the registry in Add
+	evParam := evParamOf(add)
+	// (1) suppression probes of the registry in Add (directly, or inside a private predicate it calls)
 	var probeKeys []string
-	for _, ci := range calls(add) {
-		call, ok := ci.(*ssa.Call)
-		if !ok {
-			continue
-		}
-		sc := an.StaticCallee(&call.Call)
-		if sc == nil || !P.InModule(sc) || !strings.Contains(calleeReturnPath(sc), ".deleted[") {
-			continue
-		}
-		if len(call.Call.Args) >= 2 {
-			probeKeys = append(probeKeys, an.PathOf(call.Call.Args[1]))
-		}
-	}
-	an.Instrs(add, func(in ssa.Instruction) {
-		if lk, ok := in.(*ssa.Lookup); ok && strings.HasSuffix(an.PathOf(lk.X), ".deleted") {
-			probeKeys = append(probeKeys, an.PathOf(lk.Index))
+	seenProbe := map[ssa.Instruction]bool{}
+	an.Region(add, a.stop, func(o an.Occ) {
+		switch x := o.In.(type) {
+		case *ssa.Call:
+			sc := an.StaticCallee(&x.Call)
+			if sc == nil || !P.InModule(sc) || !strings.Contains(calleeReturnPath(sc), ".deleted[") {
+				return
+			}
+			if len(x.Call.Args) >= 2 && !seenProbe[x] {
+				seenProbe[x] = true
+				probeKeys = append(probeKeys, a.inEntryTerms(o.Path(x.Call.Args[1])))
+			}
+		case *ssa.Lookup:
+			if strings.HasSuffix(o.Path(x.X), ".deleted") && !seenProbe[x] {
+				// the lookup inside the registry predicate itself is reported through its call
+				if len(o.Chain) > 0 && strings.Contains(calleeReturnPath(x.Parent()), ".deleted[") {
+					return
+				}
+				seenProbe[x] = true
+				probeKeys = append(probeKeys, a.inEntryTerms(o.Path(x.Index)))
+			}
 		}
 	})
 	c.CountSites(len(probeKeys))
